@@ -100,7 +100,8 @@ def _grid_one(c):
     if not (np.array_equal(np.asarray(ku), -2 * X) and np.array_equal(np.asarray(kv), X)):
       bad('k_cross', 'k x (a, b) != (-b, a)')
     # ---- identities through nodal space on grids that resolve products
-    if c['nodes'] == 'quadratic' and c['spacing'] == 'gauss' and c['L'] - c['M'] == 1 and c['L'] >= 4:
+    if c['L'] >= 4 and (c['nodes'] == 'fine' or
+                        (c['nodes'] == 'quadratic' and c['spacing'] == 'gauss' and c['L'] - c['M'] == 1)):
       zm = np.array([0.0 if (lab['m'], lab['l']) == (0, 0) else 1.0 for lab in c['labels']])[:, None, None]
       Xz = jnp.asarray(X * zm)                                  # zero-mean inputs
       N = max(c['I'], c['J'])
@@ -182,9 +183,11 @@ def run(ctx):
   with open(os.path.join(common.OUT, 'C02', 'algebra_cases.json'), 'w') as f:
     json.dump(ra.cases, f)
   r = ctx.tlc('SpectralIndex', 'SpectralIndex_quick.cfg' if q else 'SpectralIndex_thorough.cfg')
-  cases = [c for c in r.cases if c['spacing'] == 'gauss' or c['nodes'] == 'quadratic']
+  cases = [c for c in r.cases if c['spacing'] == 'gauss' or c['nodes'] in ('quadratic', 'fine')]
+  if q:      # the fine-latitude grids are expensive: one per spacing in the quick tier
+    cases = [c for c in cases if c['nodes'] != 'fine' or (c['spacing'], c['impl']) in (('gauss', 'real'), ('equiangular', 'fast'))]
   for i, c in enumerate(cases):
-    c['radii'] = [1.0, 2.0] if i % 2 == 0 else [0.5]
+    c['radii'] = [2.0] if c['nodes'] == 'fine' else [1.0, 2.0] if i % 2 == 0 else [0.5]
   res = common.parallel_map('c02', 'replay_grids', cases, nproc=4 if q else 8, tag='ops',
                             outdir=os.path.join(ctx.out, 'par'))
   ctx.replayed += len(cases)
